@@ -430,6 +430,12 @@ def int_range(v: Term) -> Optional[Tuple[Optional[int], Optional[int]]]:
         return (lo, hi)  # type: ignore[return-value]
     if isinstance(v, tuple) and v and v[0] == "app" and v[1] in ("crc_hqx", "binascii.crc_hqx"):
         return (0, 65535)
+    if isinstance(v, tuple) and v and v[0] == "app" and v[1] in ("mod", "floordiv") and len(v) == 4 and is_c(v[3]) and isinstance(v[3][1], int) and v[3][1] > 0:
+        r = int_range(v[2])
+        if v[1] == "mod" and r is not None:
+            return (0, v[3][1] - 1)
+        if v[1] == "floordiv" and r is not None and r[0] is not None and r[1] is not None:
+            return (r[0] // v[3][1], r[1] // v[3][1])
     if isinstance(v, tuple) and v and v[0] == "eattr":
         alts = v[3] if len(v) > 3 else None
         if alts and all(isinstance(a, int) for a in alts):
